@@ -52,7 +52,18 @@ def rule_paramcheck(ctx):
             yield ob(R, f, "%s:frame-size-le-window" % q, has("<", "window", "frame_size"), "frame_size > window raises ValueError before any frame computation")
             # window=None disables the window
             wf = [c for c in s.calls() if c.callee == "hierarchy._gauc"]
-            good = bool(wf) and all(len(c.args) == 4 and c.args[3].op == "ite" and tm.is_const(c.args[3].a[1], None) and c.args[3].a[0].op == "cmp" and c.args[3].a[0].a[0] == "is" for c in wf)
+            def none_when_none(t):
+                # ite(window is None, None, frames) or ite(window is not None, frames, None)
+                if t.op != "ite" or t.a[0].op != "cmp" or t.a[0].a[0] not in ("is", "isnot"):
+                    return False
+                c = t.a[0]
+                if not (any(z.op == "param" and z.a[0] == "window" for z in c.a[1:]) and any(tm.is_const(z, None) for z in c.a[1:])):
+                    return False
+                branch = t.a[1] if c.a[0] == "is" else t.a[2]
+                other = t.a[2] if c.a[0] == "is" else t.a[1]
+                return tm.is_const(branch, None) and "window" in tm.params_of(other)
+
+            good = bool(wf) and all(len(c.args) == 4 and none_when_none(c.args[3]) for c in wf)
             yield ob(R, f, "%s:window-none" % q, good, "window=None is forwarded as None (whole track), otherwise as a frame count")
 
 
